@@ -2,6 +2,10 @@ import EinxModel.Proofs.IR
 import EinxModel.Proofs.IRGeneric
 import EinxModel.IR.PrimX
 import EinxModel.Denote.Expr2
+import EinxModel.Denote.Expr3
+import EinxModel.Proofs.DenoteViews
+import EinxModel.Proofs.Peel
+import EinxModel.Proofs.Arith
 /-!
 C01 — every built-in operation computes exactly its loop-notation meaning.
 
@@ -115,5 +119,191 @@ example :
     (match Denote.denoteId [e_in] [e_out] with
       | .ok exp => validate [.transpose 0 [1, 2, 0], .reshape 1 [4, 3]] [[2, 3, 2]] [2] exp
       | .error _ => false) = false := by decide +kernel
+
+/-! ### The families added to the validator: n-ary elementwise, argmax/argmin, get_at, sort/argsort
+
+`validate_sound_extended` is generic in the plan function, so it covers the new instructions
+(`argfind`, `sortAxis`, `arange`, `take`) as it stands.  What is new is the *form* of the denotations
+(`Denote/Expr3.lean`); the theorems below say what those forms mean. -/
+
+/-- **Peeling = unravel.**  The coordinates that the argmax/argmin denotation builds from the flat index
+by successive `divmod` with the trailing sizes are the row-major multi-index of that flat index. -/
+theorem peel_eq_unravel (sizes : List Nat) (k : Nat) (h : k < prod sizes) :
+    Denote.peel sizes k = unravel sizes k :=
+  Denote.peel_eq_unravel sizes k h
+
+/-- **Meaning of the coordinate cells of argmax/argmin.**  For every interpretation in which `remainder`
+and `floor_divide` are `%` and `/` on non-negative integers, every register content and every flat-index
+cell `k` whose value `n` lies inside the block of the bracketed axes, the cells `peelCells sizes k` that
+the denotation writes along the bracketed output axis evaluate to `unravel sizes n`. -/
+theorem argfind_coordinates_meaning {I : String → List Int → Int} (hI : Denote.DivModInterp I) (bad : Int)
+    (xs : List (Tensor Int)) (sizes : List Nat) (k : Cell) (n : Nat)
+    (hk : evalCell (intAlgOf I bad) xs k = Int.ofNat n) (hn : n < prod sizes) :
+    evalCells (intAlgOf I bad) xs (Denote.peelCells sizes k) = (unravel sizes n).map Int.ofNat :=
+  Denote.evalCell_peelCells hI bad xs sizes k n hk hn
+
+/-- **Meaning of the index cell of get_at.**  For every interpretation in which `add` and `multiply` are
+the integer operations: if the coordinate cells evaluate to the natural numbers `vals` (`none` = omitted
+un-bracketed axis of length 1, index 0), the index cell `ravelExpr coords sizes` evaluates to the row-major
+flat position `ravel sizes vals`. -/
+theorem get_at_index_meaning {I : String → List Int → Int} (hI : Denote.ArithInterp I) (bad : Int)
+    (xs : List (Tensor Int)) (coords : List (Option Cell)) (vals : List (Option Nat)) (sizes : List Nat)
+    (hv : coords.map (Option.map (evalCell (intAlgOf I bad) xs)) = vals.map (Option.map Int.ofNat)) :
+    evalCell (intAlgOf I bad) xs (Denote.ravelExpr coords sizes) =
+      Int.ofNat (ravel sizes (vals.map (·.getD 0))) := by
+  have h1 := Denote.evalCell_ravelExpr hI bad xs coords sizes
+  have hv' : coords.map (Option.map (evalCell ⟨id, I, bad⟩ xs)) = vals.map (Option.map Int.ofNat) := hv
+  rw [hv', Denote.ravelInt_eq_ravel] at h1
+  exact h1
+
+/-- Non-vacuity of the two hypotheses: the integer operations satisfy them. -/
+example : Denote.DivModInterp (fun f args => match f, args with
+    | "remainder", [a, b] => a % b
+    | "floor_divide", [a, b] => a / b
+    | _, _ => 0) := by
+  intro a s
+  exact ⟨rfl, rfl⟩
+
+example : Denote.ArithInterp (fun f args => match f, args with
+    | "add", [a, b] => a + b
+    | "multiply", [a, b] => a * b
+    | _, _ => 0) := by
+  intro a b
+  exact ⟨rfl, rfl⟩
+
+/-- Non-vacuity (argmax): the program einx emits for `[b] [c] -> [2]` on shape (2,3) -- reshape, `argmax`,
+the `divmod` chain, reshape, concatenate -- is accepted against `denoteArgfind`; stacking the two
+coordinates in the wrong order is rejected. -/
+example :
+    let e_in := Denote.Expr.list [.br (.axis "b" 2), .br (.axis "c" 3)]
+    let e_out := Denote.Expr.br (.axis "k" 2)
+    let prog (o : List Nat) : List InstrX :=
+      [.base (.reshape 0 [6]), .argfind "argmax" 1 0,
+       .base (.ewise "floor_divide" [.reg 2, .lit 3]), .base (.ewise "remainder" [.reg 2, .lit 3]),
+       .base (.ewise "floor_divide" [.reg 3, .lit 2]), .base (.ewise "remainder" [.reg 3, .lit 2]),
+       .base (.reshape 6 [1]), .base (.reshape 4 [1]), .base (.concat o 0)]
+    (match Denote.denoteArgfind "argmax" e_in e_out with
+      | .ok exp => validateG planInstrX (prog [7, 8]) [[2, 3]] [9] [exp]
+          && !validateG planInstrX (prog [8, 7]) [[2, 3]] [9] [exp]
+      | .error _ => false) = true := by decide +kernel
+
+/-- Non-vacuity (get_at): the program einx emits for `[h] c, p -> p c` on shapes (2,2), (2,) -- flatten,
+`p·2 + arange(2)`, `take` -- is accepted against `denoteGetAt`; a wrong multiplier is rejected. -/
+example :
+    let e_t := Denote.Expr.list [.br (.axis "h" 2), .axis "c" 2]
+    let e_c := Denote.Expr.axis "p" 2
+    let e_out := Denote.Expr.list [.axis "p" 2, .axis "c" 2]
+    let prog (m : Int) : List InstrX :=
+      [.base (.reshape 0 [4]), .base (.ewise "multiply" [.reg 1, .lit m]), .base (.reshape 3 [2, 1]),
+       .arange 2, .base (.reshape 5 [1, 2]), .base (.ewise "add" [.reg 4, .reg 6]), .take 2 7]
+    (match Denote.denoteGetAt [e_t, e_c] e_out with
+      | .ok exp => validateG planInstrX (prog 2) [[2, 2], [2]] [8] [exp]
+          && !validateG planInstrX (prog 3) [[2, 2], [2]] [8] [exp]
+      | .error _ => false) = true := by decide +kernel
+
+/-- Non-vacuity (n-ary elementwise): `add("a, a, a -> a")` is the left fold `add(add(x, y), z)`; folding in
+another operand order is rejected. -/
+example :
+    let e := Denote.Expr.axis "a" 2
+    (match Denote.denoteElementwiseFold "add" [e, e, e] e with
+      | .ok exp =>
+        validateG planInstrX [.base (.ewise "add" [.reg 0, .reg 1]), .base (.ewise "add" [.reg 3, .reg 2])] [[2], [2], [2]] [4] [exp]
+          && !validateG planInstrX [.base (.ewise "add" [.reg 0, .reg 2]), .base (.ewise "add" [.reg 3, .reg 1])] [[2], [2], [2]] [4] [exp]
+      | .error _ => false) = true := by decide +kernel
+
+/-- Non-vacuity (sort): `np.sort(x, axis=1)` is accepted against the denotation of `a [b]`, `axis=0` is not. -/
+example :
+    let e := Denote.Expr.list [.axis "a" 2, .br (.axis "b" 2)]
+    (match Denote.denoteSort "sort" e e with
+      | .ok exp => validateG planInstrX [.sortAxis "sort" 0 1] [[2, 2]] [1] [exp]
+          && !validateG planInstrX [.sortAxis "sort" 0 0] [[2, 2]] [1] [exp]
+      | .error _ => false) = true := by decide +kernel
+
+/-! ### Validation modulo integer arithmetic (index arithmetic of get_at) -/
+
+/-- **Soundness of the arithmetic normalisation** (`IR.normArith`: canonical polynomial form of `add` /
+`multiply` over the other sub-cells, applied recursively inside all other function symbols): for every
+interpretation in which `add` / `multiply` are the integer operations, every register content and every
+value for out-of-range reads, a cell and its normal form have the same value. -/
+theorem normArith_sound {I : String → List Int → Int} (hI : ArithI I) (bad : Int) (xs : List (Tensor Int))
+    (c : Cell) : evalCell (intAlgOf I bad) xs (normArith c) = evalCell (intAlgOf I bad) xs c :=
+  normArith_eval hI bad xs c
+
+/-- **Soundness of the validator modulo integer arithmetic** (`validateArith planInstrX`, the driver's
+fallback for get_at when the index arithmetic is associated or ordered differently from the canonical
+form): acceptance implies that for all integer inputs of the validated shapes and all interpretations of
+the function symbols *in which `add` and `multiply` are the integer operations* the program computes the
+denotation.  (`validate_sound_extended` needs no such restriction and stays the theorem behind every
+`mode = syntactic` verdict.) -/
+theorem validate_sound_arith (prog : List InstrX) (outs : List Nat) (expected : List (Tensor Cell))
+    (I : String → List Int → Int) (hI : ArithI I) (bad : Int) (xs : List (Tensor Int))
+    (hlen : ∀ x ∈ xs, x.data.length = prod x.shape)
+    (hv : validateArith planInstrX prog (xs.map (·.shape)) outs expected = true) :
+    ∃ regs, evalProgG planInstrX (intAlgOf I bad) prog xs = .ok regs ∧
+      outs.map (fun r => regs[r]?) =
+        expected.map (fun t => some (t.map (evalCell (intAlgOf I bad) xs))) :=
+  validateArith_sound planInstrX prog outs expected I hI bad xs hlen hv
+
+/-- Non-vacuity of `ArithI`. -/
+example : ArithI (fun f args => match f, args with
+    | "add", [a, b] => a + b
+    | "multiply", [a, b] => a * b
+    | _, _ => 0) := by
+  intro a b
+  exact ⟨rfl, rfl⟩
+
+/-- Non-vacuity: the get_at program of the example above with the sum commuted (`arange + p·2`) and the
+multiplier split (`(p·1)·2`) is rejected by the syntactic validator but accepted modulo arithmetic; a wrong
+multiplier is still rejected. -/
+example :
+    let e_t := Denote.Expr.list [.br (.axis "h" 2), .axis "c" 2]
+    let e_c := Denote.Expr.axis "p" 2
+    let e_out := Denote.Expr.list [.axis "p" 2, .axis "c" 2]
+    let prog (m : Int) : List InstrX :=
+      [.base (.reshape 0 [4]), .base (.ewise "multiply" [.reg 1, .lit 1]), .base (.ewise "multiply" [.reg 3, .lit m]),
+       .base (.reshape 4 [2, 1]), .arange 2, .base (.reshape 6 [1, 2]), .base (.ewise "add" [.reg 7, .reg 5]), .take 2 8]
+    (match Denote.denoteGetAt [e_t, e_c] e_out with
+      | .ok exp => !validateG planInstrX (prog 2) [[2, 2], [2]] [9] [exp]
+          && validateArith planInstrX (prog 2) [[2, 2], [2]] [9] [exp]
+          && !validateArith planInstrX (prog 3) [[2, 2], [2]] [9] [exp]
+      | .error _ => false) = true := by decide +kernel
+
+/-! ### The fuel of `views` is sufficient -/
+
+/-- Choosing a block of the leftmost top-level concatenation strictly decreases the number of
+concatenation nodes (the termination measure of the enumeration of virtual tensors). -/
+theorem nconcat_choose_lt (k : Nat) (ds ds' : List Denote.Dim) (h : Denote.Dim.chooseL k ds = some ds') :
+    Denote.Dim.nconcatL ds' < Denote.Dim.nconcatL ds :=
+  Denote.Dim.nconcatL_chooseL_lt k ds ds' h
+
+/-- **Fuel sufficiency.**  `views` runs `viewsFuel` with fuel = number of concatenation nodes + 1; any
+larger amount of fuel gives the same enumeration, … -/
+theorem views_fuel_sufficient (e : Denote.Expr) (m : Nat)
+    (hm : Denote.Dim.nconcatL (Denote.dims false e) + 1 ≤ m) :
+    Denote.viewsFuel m (Denote.dims false e) = Denote.views e :=
+  Denote.viewsFuel_stable _ m _ (by omega) hm
+
+/-- … the enumeration satisfies the un-fuelled recursion equation (so it is the depth-first enumeration
+of all block choices, not a truncation of it), … -/
+theorem views_unfold (ds : List Denote.Dim) :
+    Denote.viewsFuel (Denote.Dim.nconcatL ds + 1) ds =
+      if Denote.Dim.nconcatL ds == 0 then [ds]
+      else (List.range (Denote.Dim.nblocksL ds)).flatMap (fun k =>
+        match Denote.Dim.chooseL k ds with
+        | some ds' => Denote.viewsFuel (Denote.Dim.nconcatL ds' + 1) ds'
+        | none => []) :=
+  Denote.viewsFuel_unfold ds
+
+/-- … and every virtual tensor it returns is concatenation-free (the fuel-exhausted case is never reached
+with a concatenation left). -/
+theorem views_concatFree (e : Denote.Expr) : ∀ v ∈ Denote.views e, Denote.Dim.nconcatL v = 0 :=
+  Denote.viewsFuel_concatFree _ _ (by omega)
+
+/-- Non-vacuity: an expression with two nested-free concatenations `(a + b) (c + d)` has four virtual
+tensors, all concatenation-free, and ten times the fuel changes nothing. -/
+example :
+    let e := Denote.Expr.list [.concat [.axis "a" 1, .axis "b" 2], .concat [.axis "c" 1, .axis "d" 1]]
+    ((Denote.views e).length == 4 && (Denote.views e).all (fun v => Denote.Dim.nconcatL v == 0)
+      && (Denote.viewsFuel 30 (Denote.dims false e)).length == 4) = true := by decide +kernel
 
 end Einx.IR
